@@ -16,7 +16,9 @@ impl Utf8Accum {
         // Plain and stupid utf-8 validation
         // Bytes are supposed to be human input so it's okay to be not blazing fast
 
-        if byte >= 0xF8 {
+        if byte >= 0xF5 || byte == 0xC0 || byte == 0xC1 {
+            // these octets never appear in well-formed utf-8
+            self.expected = 0;
             return None;
         } else if byte >= 0xF0 {
             // this is first octet of 4-byte value
@@ -35,6 +37,19 @@ impl Utf8Accum {
             self.expected = 1;
         } else if byte >= 0x80 {
             if self.expected > 0 {
+                // second octet has narrower range after some of first octets
+                // (overlong encodings, surrogates and values above U+10FFFF are not allowed)
+                let valid = match (self.partial, self.buffer[0]) {
+                    (1, 0xE0) => byte >= 0xA0,
+                    (1, 0xED) => byte < 0xA0,
+                    (1, 0xF0) => byte >= 0x90,
+                    (1, 0xF4) => byte < 0x90,
+                    _ => true,
+                };
+                if !valid {
+                    self.expected = 0;
+                    return None;
+                }
                 // this is one of other octets of multi-byte value
                 self.buffer[self.partial as usize] = byte;
                 self.partial += 1;
